@@ -120,6 +120,7 @@ func (c06) Case(c *core.Ctx) {
 	defer ResetDefaults()
 	defer verifyKept(c, "c06-retained-output-changed")
 	c.Eval()
+	failedCalls(c, 8)
 	m := map[string]interface{}{}
 	for j, n := 0, 1+r.Intn(3); j < n; j++ {
 		m[c06str(r)] = c06val(r, 3)
@@ -228,7 +229,33 @@ func (c06) Case(c *core.Ctx) {
 		// invalid UTF-8 inside a string value
 		b = bytes.Replace(b, []byte(`"`), []byte("\"\xff"), 1)
 	}
-	if mut != 9 && mut != 8 && mut != 7 {
+	if r.Intn(150) == 0 {
+		// nesting depths around the limits a depth counter may have (int8, uint8) and around encoding/json's own limit of 10000
+		d := []int{126, 127, 128, 129, 130, 254, 255, 256, 257, 1000, 9999, 10000, 10001, 10001, 10001, 10002}[r.Intn(16)]
+		switch r.Intn(3) {
+		case 0:
+			b = []byte(strings.Repeat("[", d) + "1" + strings.Repeat("]", d))
+		case 1:
+			b = []byte(strings.Repeat(`{"a":`, d) + "1" + strings.Repeat("}", d))
+		default:
+			b = []byte(`{"a":` + strings.Repeat("[", d-1) + `{"k":1}` + strings.Repeat("]", d-1) + "}")
+		}
+		mut = 10
+		c.Count("accept:deep-nesting")
+	} else if big := autoBig(r); big > 0 && r.Intn(2000) == 0 {
+		// an input just beyond a size the tree itself spells out: numbers (exact text under JsonUseNumber) and trailing data
+		var bb bytes.Buffer
+		bb.WriteString(`{"n":12345678901234567890.10,"pad":"`)
+		bb.WriteString(strings.Repeat("p", big+1+r.Intn(64)))
+		bb.WriteString(`","m":0.10}`)
+		if r.Intn(2) == 0 {
+			bb.WriteString(` {"next":1}`)
+		}
+		b = bb.Bytes()
+		mut = 11
+		c.Count("accept:larger-than-a-size-the-tree-spells-out")
+	}
+	if mut != 9 && mut != 8 && mut != 7 && len(b) < 1<<16 {
 		c.NonTrivial("bytes", string(b))
 	}
 	useNumber := r.Intn(3) == 0
@@ -262,7 +289,7 @@ func (c06) Case(c *core.Ctx) {
 	} else if _, isObj := v.(map[string]interface{}); isObj {
 		c.Count("accept:std-accepts-object")
 	}
-	det := core.D{"input": string(b), "input_hex": fmt.Sprintf("%x", b), "use_number": useNumber, "std_err": fmt.Sprint(derr), "std_value": jv.Show(v), "observed": jv.Show(got), "err": fmt.Sprint(gerr)}
+	det := core.D{"input": head(string(b), 400), "input_bytes": len(b), "input_hex": head(fmt.Sprintf("%x", b), 800), "use_number": useNumber, "std_err": fmt.Sprint(derr), "std_value": jv.Show(v), "observed": jv.Show(got), "err": fmt.Sprint(gerr)}
 	shape := "object"
 	if tb := bytes.TrimLeft(b, " \t\r\n"); len(tb) > 0 && tb[0] == '[' {
 		shape = "array"
